@@ -23,6 +23,15 @@ var plans = map[string]plan{
 		Stubs:    []string{"TCP/TLS (net.Pipe, no handshake)", "HTTP server loop (http.ReadRequest + recorder)", "block stores (in-memory)", "wall clock (testing/synctest)", "libp2p stream transport (absent)"},
 		Assume:   commonAssume,
 	},
+	"C04": {
+		Property: "C04", Level: "fault_enumeration",
+		Quick:    []phase{{Scen: "C04", Enum: true, Seeds: 6000, Batch: 250}},
+		Thorough: []phase{{Scen: "C04", Enum: true, Seeds: 400000, Batch: 1000}},
+		Rule: "enumerated: every single fault of 23 kinds (HTTP 404/403/400/429/500/503, reset before/mid response, truncated and short bodies, bit flip, empty, substituted and extended bodies, stall, long delay, context cancellation, hook-signalled failure, store open/write/commit errors and lost commit, refused dial) at every request/block/store-op index 0..7 of a 3-ad sync, for explicit and announce-triggered syncs x libp2p-HTTP discovery and plain HTTP x segmented and unsegmented; seeded: 1..5 faults of random kind and position, chains 3..8, retryable client, two live addresses, dead first address, random pre-synced prefix. After the faulty attempt the network heals and the same head is synced again through the same subscriber. A run is non-trivial when a fault fired; distinct = distinct (fault set, canonical log hash)",
+		Real:   []string{"dagsync.Subscriber", "announce.Receiver (direct announcements)", "ipnisync.Sync/Syncer", "ipnisync.Publisher", "go-ipld-prime traversal", "net/http client transport", "libp2p-HTTP discovery client", "retryablehttp"},
+		Stubs:  []string{"TCP/TLS (net.Pipe)", "HTTP server loop", "block stores (in-memory, fault points)", "wall clock (testing/synctest)", "gossip pubsub (absent: announcements are direct)", "libp2p stream transport (absent)"},
+		Assume: commonAssume,
+	},
 	"C16": {
 		Property: "C16", Level: "exploration",
 		Quick:    []phase{{Scen: "C16", Enum: true, Seeds: 20000, Batch: 2000}},
